@@ -345,6 +345,10 @@ struct Slot {
     dbs: Vec<H>,
     kss: Vec<H>,
     addr: u64,
+    /// latched observations (instance addresses are reused by the allocator, so they are
+    /// attributed to the newest instance opened at that address when the event was logged)
+    journal_dropped: bool,
+    ks_dropped: bool,
 }
 
 /// Executes one behaviour; returns Err(description of the first divergence).
@@ -353,9 +357,8 @@ fn replay_one(beh: &[Value], dir: &Path, seed: u64, steps: &mut u64) -> Result<(
     let mut attempts: u64 = 0;
     let mut last_res = String::from("-");
     let mut last_changed: Vec<String> = Vec::new();
-    let mut journal_dropped: std::collections::HashSet<u64> = Default::default(); // by instance address
-    let mut ks_dropped: std::collections::HashSet<u64> = Default::default();
-    let mut by_obj: std::collections::HashMap<u64, u64> = Default::default();
+    let mut by_obj: std::collections::HashMap<u64, u64> = Default::default(); // journal address -> instance address
+    let mut cur: std::collections::HashMap<u64, u64> = Default::default(); // instance address -> attempt number of its newest incarnation
     let workers = 2usize;
     fjall::verif::trace_start();
     crate::adv::start(dir, None, false, false, None);
@@ -382,19 +385,26 @@ fn replay_one(beh: &[Value], dir: &Path, seed: u64, steps: &mut u64) -> Result<(
         for e in events() {
             match e["ev"].as_str().unwrap_or("") {
                 "InstOpened" => {
-                    // (addresses are reused by the allocator: a new incarnation starts clean)
                     let a = e["inst"].as_u64().unwrap_or(0);
-                    journal_dropped.remove(&a);
-                    ks_dropped.remove(&a);
                     by_obj.insert(e["journal"].as_u64().unwrap_or(0), a);
+                    // the newest slot opened at this address
+                    if let Some((n, _)) = slots.iter().filter(|(_, s)| s.addr == a).max_by_key(|(n, _)| **n) {
+                        cur.insert(a, *n);
+                    }
                 }
                 "JournalDropped" => {
-                    if let Some(i) = by_obj.get(&e["obj"].as_u64().unwrap_or(0)) {
-                        journal_dropped.insert(*i);
+                    if let Some(n) = by_obj.get(&e["obj"].as_u64().unwrap_or(0)).and_then(|a| cur.get(a)) {
+                        if let Some(s) = slots.get_mut(n) {
+                            s.journal_dropped = true;
+                        }
                     }
                 }
                 "KsInnerDrop" => {
-                    ks_dropped.insert(e["inst"].as_u64().unwrap_or(0));
+                    if let Some(n) = cur.get(&e["inst"].as_u64().unwrap_or(0)) {
+                        if let Some(s) = slots.get_mut(n) {
+                            s.ks_dropped = true;
+                        }
+                    }
                 }
                 _ => {}
             }
@@ -419,13 +429,13 @@ fn replay_one(beh: &[Value], dir: &Path, seed: u64, steps: &mut u64) -> Result<(
         if let Some(insts) = obs["insts"].as_array() {
             for (k, io) in insts.iter().enumerate() {
                 let Some(slot) = slots.get(&(k as u64 + 1)) else { continue };
-                let jd = journal_dropped.contains(&slot.addr);
+                let jd = slot.journal_dropped;
                 match io["journal"].as_str().unwrap_or("") {
                     "dropped" if !jd => return finish(Err((si, format!("instance {}: the journal was not dropped (synced), the specification says it is", k + 1)))),
                     "open" if jd => return finish(Err((si, format!("instance {}: the journal was dropped while the specification says it is open", k + 1)))),
                     _ => {}
                 }
-                let kd = ks_dropped.contains(&slot.addr);
+                let kd = slot.ks_dropped;
                 match io["ks"].as_str().unwrap_or("") {
                     "gone" if !kd => return finish(Err((si, format!("instance {}: the keyspace was not dropped, the specification says it is gone", k + 1)))),
                     "alive" if kd => return finish(Err((si, format!("instance {}: the keyspace was dropped while the specification says it is alive", k + 1)))),
@@ -489,7 +499,7 @@ fn replay_one(beh: &[Value], dir: &Path, seed: u64, steps: &mut u64) -> Result<(
                 }
                 if let Some(h) = h {
                     let addr = h.inst();
-                    slots.insert(attempts, Slot { dbs: vec![h], kss: Vec::new(), addr });
+                    slots.insert(attempts, Slot { dbs: vec![h], kss: Vec::new(), addr, journal_dropped: false, ks_dropped: false });
                 }
             }
             "SetMarker" => {
